@@ -48,6 +48,9 @@ def run(tier, seed):
     po2 = proof_obligations("WowVerif.Thm.C17b")      # trace_accounts: the prescribed field list accounts for the whole encoding
     add_proof_failures(rep, po2)
     po = dict(po, theorems=dict(po["theorems"], **po2["theorems"]), obligations=po["obligations"] + po2["obligations"], discharged=po["discharged"] + po2["discharged"])
+    po3 = proof_obligations("WowVerif.Thm.C17c")      # flat_sound / flat_walk: soundness of the static matcher for straight-line messages
+    add_proof_failures(rep, po3)
+    po = dict(po, theorems=dict(po["theorems"], **po3["theorems"]), obligations=po["obligations"] + po3["obligations"], discharged=po["discharged"] + po3["discharged"])
     rng = SplitMix64(seed)
     cov = None
     for label, base in ws_dirs(tier, rep):
@@ -141,6 +144,18 @@ def walk(rep, tier, rng, label, base, po):
                 reqs.append(f"wsbytes {which}:{case} {1 if dr == 'server' else 0} {c['target'] if which == 'login' else 0} {c['key']} {bs[hl:].hex() or '-'}")
                 meta.append((c, case, 1 if dr == "server" else 0))
     out = d.ask_many(reqs)
+    # the verified static matcher (Thm/C17c.lean): straight-line definitions are covered for ALL values by `flat_walk`
+    pairs = sorted({(f"{'world' if c['lib'] == 'vanilla' else 'login'}:{case}", c["key"]) for (c, case, s2c) in meta})
+    flat = d.ask_many([f"wsflat {n} {k}" for n, k in pairs])
+    n_flat = n_flat_ok = 0
+    flat_bad = []
+    for (n, k), o in zip(pairs, flat):
+        if "flat=1" in o:
+            n_flat += 1
+            if "match=1" in o:
+                n_flat_ok += 1
+            elif not n.startswith("login"):      # login / MSG cases are wrapped in a direction test: outside the fragment
+                flat_bad.append((n, k))
     d.close()
     classes = collections.Counter()
     per_case = collections.defaultdict(collections.Counter)
@@ -162,6 +177,14 @@ def walk(rep, tier, rng, label, base, po):
         rep.violation(f"C17/{c['key']}/{o.split()[0]}", f"{c['key']} ({'server to client' if s2c else 'client to server'}): the dissector case {case} {what}: {o[:120]}",
                       {"container": c["key"], "case": case, "direction_s2c": s2c, "body_hex": hexs[:4000], "model": o[:400],
                        "replay_cmd": f"printf 'load {CORPUS_PATH}\\nload {wsfile}\\nwsbytes {rq.split()[1]} {s2c} {rq.split()[3]} {c['key']} {hexs[:20000]}\\n' | {driver_path()}"})
+    for n, k in flat_bad:
+        c_ = next(c for (c, case, s2c) in meta if c["key"] == k)
+        if c_["kind"] == "msg" or not n.endswith(":" + c_["name"]):
+            continue        # MSG_* cases serve both directions and are wrapped in a direction test: outside the straight-line fragment
+        wit = [1 for (c, case, s2c), o in zip(meta, out) if c["key"] == k and not (o.startswith("ok same") or o.startswith("unsupported"))]
+        if not wit:
+            rep.violation(f"C17/{k}/static-matcher", f"{k}: the definition is straight-line but the verified matcher rejects its dissector case {n} (a field is walked with another width / encoding / order)",
+                          {"container": k, "case": n, "unchecked": "flatMatches (Thm/C17c.lean)"}, no_input=True)
     covered = sum(1 for k, v in per_case.items() if any(x.startswith("ok") for x in v))
     return {
         "fragments": label,
@@ -172,7 +195,7 @@ def walk(rep, tier, rng, label, base, po):
                                                "the fragments checked are the committed tests/wireshark/*.txt, which C08 shows to be what the generator emits"],
         "theorems": po["theorems"], "declaration_obligations": n_decl,
         "evaluations": len(reqs), "distinct_nontrivial": len(set(reqs)), "outcome_classes": dict(classes), "cases_translated": {w: len(have[w]) for w in have},
-        "cases_unsupported": dict(unsupported_cases), "containers_walked_ok": covered, "containers_without_case": len(missing), "containers_without_case_sample": missing[:8],
+        "cases_unsupported": dict(unsupported_cases), "containers_walked_ok": covered, "straight_line_definitions": n_flat, "straight_line_definitions_proved_for_all_values": n_flat_ok, "containers_without_case": len(missing), "containers_without_case_sample": missing[:8],
         "rule": "per Vanilla world message and login message/version with a dissector case: branch-directed samples (every arm), enumerator sweep, random samples with array lengths 0/1/2/5, both directions for MSG; wowm test vectors; walk must end at the end of the body with the definition's (width, encoding) list",
         "samples": [{"request": reqs[i][:160], "model": out[i][:120]} for i in (0, len(reqs) // 2, len(reqs) - 1)] if reqs else [],
     }
